@@ -403,11 +403,11 @@ def conclude(R, prop, tier, seed, hs, smt_obls, smt_out, wall, partial):
                         entry["outcome"] = "known finding " + f["id"]
                         if deciding:
                             discharged += 1
-                    elif deciding:
+                    else:
+                        # a counterexample is decisive whatever the role of the harness (only timeouts / out-of-memory
+                        # runs of best-effort harnesses are tolerated)
                         violations.append((h, r))
                         entry["outcome"] = "violation"
-                    else:
-                        entry["outcome"] = "best-effort harness failed (not deciding)"
             else:
                 entry["outcome"] = "inconclusive (%s)" % st
                 if r.get("error"):
